@@ -238,9 +238,17 @@ func sectionRequests(tree *mimegen.Node, stored []byte, idAt, shift int) []secRe
 				}
 			}
 		} else if n.IsMsg() && n.Embedded != nil {
-			// a (top level or embedded) message that is itself of type message/rfc822: part 1 is its body
+			// an embedded message that is itself of type message/rfc822 (not multipart): its part 1 is its body, i.e. the
+			// message it embeds; below that the numbering continues in the embedded message
 			p := append(append([]int{}, path...), 1)
+			e := n.Embedded
 			add(p, "", sl(n.BStart, n.End), "SpBody")
+			add(p, "MIME", sl(n.HStart, n.BStart), "SpMime")
+			add(p, "HEADER", sl(e.HStart, e.BStart), "SpHeader")
+			add(p, "TEXT", sl(e.BStart, e.End), "SpText")
+			if !e.IsMulti() {
+				rec(e, p)
+			}
 		} else {
 			// non-multipart message: part 1 is the body
 			p := append(append([]int{}, path...), 1)
@@ -478,7 +486,7 @@ func run(ctx *common.Ctx) error {
 	for mi := 0; mi < nMsgs+len(bigSizes); mi++ {
 		ascii := mi%2 == 0
 		big := mi >= nMsgs
-		g := &mimegen.Gen{Rng: rng, MaxBody: 80, ASCII: ascii, NoTopMsg: true, NoMsgInMsg: true}
+		g := &mimegen.Gen{Rng: rng, MaxBody: 80, ASCII: ascii, NoTopMsg: true, NoMsgInMsg: true, MsgChainLeaf: true, Bare: true, NoClose: true, EmptyFields: true}
 		mix := rng.Chance(0.4)
 		var tree *mimegen.Node
 		if big {
@@ -491,7 +499,7 @@ func run(ctx *common.Ctx) error {
 				tree.Prelude = "this line has no colon"
 			}
 		}
-		layout := &mimegen.Layout{Rng: rng, MixEOL: mix, Fold: rng.Chance(0.5), LowerHN: rng.Chance(0.3)}
+		layout := &mimegen.Layout{Rng: rng, MixEOL: mix, LF: !mix && rng.Chance(0.4), Fold: rng.Chance(0.5), LowerHN: rng.Chance(0.3)}
 		msg := mimegen.Render(tree, layout)
 		if replayCase != nil {
 			tree, msg = replayCase.Tree, replayCase.Msg
@@ -813,6 +821,15 @@ func run(ctx *common.Ctx) error {
 			fmt.Fprintf(&defs, "Definition %s : bytes := %s.\n", name, common.CoqBytes(whole))
 			lines = append(lines, fmt.Sprintf("CPartial %d %s %d %d %s", nextID(), name, o, n, common.CoqBytes(got)))
 			modelCases++
+		}
+	}
+
+	// ---- every way a message can enter a mailbox: RFC822.SIZE = len(BODY[]) = len(HEADER)+len(TEXT) ----
+	if ctx.Replay == "" {
+		for k := 0; k < ctx.Budget(2, 20); k++ {
+			if err := sizeScenario(ctx); err != nil {
+				return err
+			}
 		}
 	}
 
